@@ -1,8 +1,8 @@
 """Implementation runner for C20 / C21 (run with PYTHONPATH=$TEXTX_REPO).
 
 stdin: {"mode": "c20", "cases": [{"grammar", "opts", "inputs": [...], "masks": [int...], "all_upto": k, "max_variants": n}]}
-   per case: the metamodel is built through the public API with the given options (ignore_case=True for
-   C20), its parser model dumped; per input the oracle table, the Arpeggio-level outcome, the textX-level
+   per case: a case-sensitive twin of the grammar is built first (same process), then the metamodel is built
+   through the public API with the given options (ignore_case=True for C20), its parser model dumped; per input the oracle table, the Arpeggio-level outcome, the textX-level
    model; for accepted inputs the positions of cased letters matched by literal terminals of the grammar
    (StrMatch / RegExMatch nodes that are not textX built-in base types) and, for subsets of those
    positions chosen by the masks (all subsets when there are at most `all_upto` positions), the
@@ -133,6 +133,18 @@ def do_c20(case):
     res = {"grammar_error": None, "dump": None, "runs": []}
     try:
         signal.setitimer(signal.ITIMER_REAL, 10, 1)
+        # process history must not matter: a case-sensitive twin of the same grammar is built first in this
+        # process (anything shared between meta-models - caches, module-level terminals - would leak its flags)
+        twin = dict(case.get("opts", {}))
+        twin["ignore_case"] = False
+        try:
+            mm_twin = metamodel_from_str(case["grammar"], **twin)
+            for text in case["inputs"][:1]:
+                load(mm_twin, text)
+        except Timeout:
+            raise
+        except Exception:
+            pass
         mm = metamodel_from_str(case["grammar"], **case.get("opts", {}))
         d = pegdump.dump_metamodel(mm)
         signal.setitimer(signal.ITIMER_REAL, 0)
